@@ -13,6 +13,7 @@ import PkVerif.Gen.C19
     drainfirst FAULT K                  runSync loop; the first K attempts fail (fetcherr*/desterr*) -> copied=N | busy
     outage FAULT / recover              (live) the source/destination is down for every call / is back -> ok
     awaitfail K                         (live) wait until the outage has refused K calls since outage/restart -> ok
+    bulkup N                            N distinct tiny blobs, each a whole clean upload (ids from 100000, printed as ranges) -> acked=N
     restart                             crash + readQueueToMemory          -> need=N   (live: ok)
     dump                                                                    -> state line
     multi N step|live                   (first op only, N = 2|3) N sync handlers with own queue and destination on one source
@@ -32,6 +33,7 @@ structure DSt where
   live : Bool
   started : Bool
   /-- multi-destination case: one machine per sync handler (empty = not a multi case) -/
+  bulkNext : Nat := 0
   ms : List St := []
   macked : List Nat := []
 
@@ -97,13 +99,31 @@ def insertSorted (a : Nat) : List Nat → List Nat
 
 def sortNat (l : List Nat) : List Nat := l.foldr insertSorted []
 
-def joinNat (l : List Nat) : String := ",".intercalate ((sortNat l).map toString)
+/-- ids of the blobs uploaded by `bulkup`; in state lines they are printed as ranges lo-hi -/
+def bulkBase : Nat := 100000
+
+def fmtRange (lo hi : Nat) : String := if lo == hi then toString lo else s!"{lo}-{hi}"
+
+/-- a sorted id list as strings: ids below `bulkBase` one by one, bulk ids as maximal ranges -/
+def rangeStrs : List Nat → Option (Nat × Nat) → List String
+  | [], none => []
+  | [], some (lo, hi) => [fmtRange lo hi]
+  | x :: xs, none => if x < bulkBase then toString x :: rangeStrs xs none else rangeStrs xs (some (x, x))
+  | x :: xs, some (lo, hi) =>
+    if x == hi + 1 then rangeStrs xs (some (lo, x)) else fmtRange lo hi :: rangeStrs xs (some (x, x))
+
+def joinNat (l : List Nat) : String := ",".intercalate (rangeStrs (sortNat l) none)
 
 def showDst (d : List (Nat × Nat)) : String :=
-  ",".intercalate ((sortNat (d.map (·.1))).map (fun i =>
-    match d.find? (·.1 == i) with
-    | some (_, p) => if p == i then toString i else toString i ++ "!"
-    | none => toString i))
+  let ids := sortNat (d.map (·.1))
+  let good := fun (i : Nat) => match d.find? (·.1 == i) with
+    | some (_, p) => p == i
+    | none => true
+  let small := (ids.filter (· < bulkBase)).map (fun i => if good i then toString i else toString i ++ "!")
+  let big := ids.filter (fun i => !(i < bulkBase))
+  let goodBig := rangeStrs (big.filter good) none
+  let badBig := (big.filter (fun i => !good i)).map (fun i => toString i ++ "!")
+  ",".intercalate (small ++ goodBig ++ badBig)
 
 def dump (d : DSt) : String :=
   s!"src={joinNat d.s.src} dst={showDst d.s.dst} rows={joinNat d.s.rows} need={joinNat d.s.need} " ++
@@ -141,8 +161,16 @@ def parseOutage (w : String) : Option Fault :=
   | some (.destErr k) => some (.destErr k)
   | _ => none
 
+/-- `bulkup N`: N distinct tiny blobs (ids from `bulkBase` up), each a whole clean upload -/
+def bulkup (v : Variant) (d : DSt) (n : Nat) : DSt × String :=
+  let s := (List.range n).foldl (fun s k => uploadOne v s (bulkBase + d.bulkNext + k) true) d.s
+  ({ d with s := s, bulkNext := d.bulkNext + n }, s!"acked={n}")
+
 def stepLive (v : Variant) (d : DSt) (ws : List String) : DSt × String :=
   match ws with
+  | ["bulkup", n] => match parseId n with
+    | some n => bulkup v d n
+    | none => (d, "bad-op")
   | ["up", i, "ok"] =>
     match parseId i with
     | some i =>
@@ -226,6 +254,10 @@ def stepV (v : Variant) (d : DSt) (ws : List String) : DSt × String :=
       let r := drain v d.s f bad
       ({ d with s := r.1 }, s!"copied={r.2}")
     | _, _ => (d, "bad-op")
+  | ["bulkup", n] =>
+    match parseId n with
+    | some n => bulkup v d n
+    | none => (d, "bad-op")
   | ["drainfirst", f, k] =>
     -- the first `k` copy attempts of the drain fail (whichever blobs the worker pool picks), the
     -- later ones are clean: if the whole first batch fails nothing is copied and the loop ends;
